@@ -89,11 +89,13 @@ def run(ctx):
         call = rng.choice([0, 1, 0, 1, 2, 12]) if slot != 0xDDDD else rng.choice([0, 1, 2, 12])
         if call in (2, 12) and slot not in (0xDDDD, 0xEEEE):
             burst = bytes(33)            # the indicated kind is then a wake-up burst, whose payload is empty as in the captured ones
-        f = (gen.rbytes(rng, 2) + b"ZZ" + bytes([rng.choice([0, 1, 255, rng.randrange(256)])]) + gen.rbytes(rng, 3)
-             + bytes([rng.choice([65, 66, 67, 1])]) + gen.rbytes(rng, 7)
+        # "arbitrary reserved bytes" include the segments a serialiser might take for absent: all zeros, all ones
+        res = lambda n_: rng.choice([gen.rbytes(rng, n_), gen.rbytes(rng, n_), bytes(n_), b"\xff" * n_])
+        f = (res(2) + b"ZZ" + bytes([rng.choice([0, 1, 255, rng.randrange(256)])]) + res(3)
+             + bytes([rng.choice([65, 66, 67, 1])]) + res(7)
              + (b"\x11\x11" if rng.random() < 0.5 else b"\x22\x22") + slot.to_bytes(2, "little") + bytes([cc | cc << 4] * 2)
-             + frame_type.to_bytes(2, "little") + gen.rbytes(rng, 2) + byteswap_bytes(burst + b"\x00") + gen.rbytes(rng, 2) + bytes([call])
-             + (ident() << 8).to_bytes(4, "little") + (ident() << 8).to_bytes(4, "little") + gen.rbytes(rng, 1))
+             + frame_type.to_bytes(2, "little") + res(2) + byteswap_bytes(burst + b"\x00") + res(2) + bytes([call])
+             + (ident() << 8).to_bytes(4, "little") + (ident() << 8).to_bytes(4, "little") + res(1))
         frames.append(f)
     # some frames are received twice in a row (a repeater's retransmission); the caller edits the first decoding before the
     # second arrives, and both must still be judged as decodings of the frame
